@@ -32,6 +32,17 @@ Tolerances (all derived from float32 input/compute rounding eps32 = 2^-24, M = m
   directors           residual / Rayleigh quotient against the oracle inertia tensor, 256 eps32 ||I|| + tiny
   nematic             3 mean_i(dI_i / gap_i); a group with gap-relative error > 1e-2 -> skip
   karplus             (2|A|+|B|) * tau_phi + 1e-5, tau_phi = 64 eps32 (M/h + 1) / min(sin)^2 + 1e-6, h = shortest lever arm
+
+"wide" cases (case["wide"], appended after the base stream so that the base cases keep their descriptors) re-run the same
+monitors on the input classes the base generators never reach: trajectories beyond 100 frames for every family, per-frame
+cells where one field / the angles / the cell CLASS changes along the trajectory, keyword arguments omitted (documented
+defaults), index containers (list of lists, tuple of tuples, int32, non-contiguous views), integer soft_min_beta, the same
+object asked under two schemes in turn, homogeneous (water/ion only) topologies, squareform on column subsets, exactly
+axis-aligned / planar / cubic (degenerate principal moments) / lattice geometries, (n_frames, n_atoms) coincidences such as
+(3, 3), xyz handed over as float64 / Fortran-ordered / strided arrays, mass and charge vectors as float32 / int64 / strided
+arrays (float32 vectors add n eps32 relative: mdtraj then accumulates in float32), compute_rdf_t with its default
+self_correlation=True, groups for compute_directors in non-ascending / interleaved / overlapping order and as tuples,
+phi completeness after backbone atoms were deleted, unknown Karplus model names.
 """
 from __future__ import annotations
 
@@ -49,11 +60,15 @@ NATIVE = ["mdtraj.geometry._geometry", "mdtraj.geometry.drid"]
 RULE = ("cases = (family, seed) from a seeded stream, the six families interleaved; each case rebuilds its topology "
         "(pieces of /repo/tests/data proteins with waters/ions/ligands, atoms deleted, several chains; or random "
         "multi-chain topologies), coordinates, cell and options from the seed; non-trivial = at least one monitor "
-        "compared a returned number with the float64 closed form; distinct = distinct case descriptors")
+        "compared a returned number with the float64 closed form; distinct = distinct case descriptors; appended: long "
+        "contacts trajectories (> 2^24 atom-pair distances) and 'wide' cases of every family (beyond 100 frames, per-frame cells "
+        "changing one field / angles / class, omitted keyword arguments, index containers and dtypes, exact special geometries, "
+        "non-ascending / interleaved / overlapping groups, whole structures, water-only topologies)")
 WORKERS = {"quick": 8, "thorough": 16}
 BUDGET = {"quick": 60, "thorough": 900}
 ENV = {"OMP_NUM_THREADS": "2", "OMP_WAIT_POLICY": "passive"}  # 16 spinning threads on 40 atoms cost 0.5 s per call
 N_LONG = {"quick": 3, "thorough": 10}
+N_WIDE = {"quick": 100, "thorough": 1000}  # per family, appended after the base stream
 FAMILIES = ["contacts", "shape", "thermo", "rdf", "drid", "order"]
 NCASES = {"quick": 900, "thorough": 9000}  # per family
 FLOORS = {"quick": {"contacts.column": 700, "contacts.column.soft_min": 250, "contacts.column.periodic": 350, "contacts.pairs": 200,
@@ -61,7 +76,9 @@ FLOORS = {"quick": {"contacts.column": 700, "contacts.column.soft_min": 250, "co
                     "pm": 500, "pm.trace": 180, "pm.det": 180, "asphericity": 180, "acylindricity": 180, "rsa": 100,
                     "density": 90, "dipole": 25, "dielectric": 12, "kappa_T": 12, "rdf.bins": 100, "rdf.g": 450, "rdf_t": 150,
                     "drid.mean": 2000, "drid.second": 2000, "drid.third": 2000, "drid.bonded-exclusion-exercised": 1500,
-                    "directors": 450, "nematic": 90, "nematic.q": 90, "karplus.J": 350, "karplus.labels": 180}}
+                    "directors": 450, "nematic": 90, "nematic.q": 90, "karplus.J": 350, "karplus.labels": 180,
+                    # widened classes (wide cases only)
+                    "contacts.column.defaults-omitted": 1500, "contacts.column.per-frame-cell": 800, "karplus.complete": 10}}
 ASSUMPTIONS = [
     "oracle masses are the topology's element masses (checked against a table of standard atomic weights to 5e-4)",
     "cell volume / lattice taken from traj.unitcell_vectors (C17 checks the cell algebra)",
@@ -69,6 +86,9 @@ ASSUMPTIONS = [
     "contacts='all': whether residues of different chains count as 'separated by two or more residues' is not documented; "
     "inter-chain pairs are an ambiguity band (skip), same-chain pairs are judged",
     "sidechain membership of terminal atoms (OXT, H1-H3, unknown names) is not documented; columns whose value depends on it are skipped",
+    "compute_rdf_t(self_correlation=True): 'include the self-correlation, the case of i=j' is read as: the pair (i, i) of every atom "
+    "named in `pairs` joins the pair list (its distance is the atom's own displacement between the two frames) and counts in N_pairs",
+    "compute_rdf_t(period_length=...) is not given a formula by its documentation and is left at its default",
 ]
 
 DATA = "/repo/tests/data/"
@@ -95,6 +115,10 @@ def _gen_cases(tier, seed):
     # atom pairs to residue pairs then works on arrays far larger than any cache or scratch limit)
     for k in range(N_LONG[tier]):
         yield dict(i=n * len(FAMILIES) + k, fam="contacts", seed=common.case_seed(seed, "C16long", k), big=False, long=True)
+    # widened input classes (see the module docstring)
+    base = n * len(FAMILIES) + N_LONG[tier]
+    for k in range(N_WIDE[tier] * len(FAMILIES)):
+        yield dict(i=base + k, fam=FAMILIES[k % len(FAMILIES)], seed=common.case_seed(seed, "C16wide", k), big=False, wide=True)
 
 
 def run_case(case, ctx):
@@ -172,7 +196,8 @@ def _protein_piece(rng, big, maxres=None):
     return md.Trajectory(sub.xyz.copy(), sub.topology), name
 
 
-def _build_contacts(rng, case, ctx):
+def _contacts_structure(rng, case, ctx):
+    """one frame: pieces of the test proteins (with neighbouring waters / ions / ligands, atoms deleted) or a random topology"""
     import mdtraj as md
     big = case["big"] or bool(case.get("long"))
     if rng.random() < 0.25 and not case.get("long"):
@@ -206,6 +231,12 @@ def _build_contacts(rng, case, ctx):
             keep[rng.integers(0, t.n_atoms, int(rng.integers(1, 4)))] = False
         if not keep.all() and keep.sum() >= 2:
             t = t.atom_slice(np.where(keep)[0])
+    return t
+
+
+def _build_contacts(rng, case, ctx):
+    import mdtraj as md
+    t = _contacts_structure(rng, case, ctx)
     nf = int(rng.integers(1, 4))
     x0 = t.xyz[0].astype(np.float64)
     if case.get("long"):
@@ -258,6 +289,8 @@ def _build_contacts(rng, case, ctx):
 def _run_contacts(case, ctx, rng):
     import mdtraj as md
     from mdtraj.geometry import squareform
+    if case.get("wide"):
+        return _run_contacts_wide(case, ctx, rng)
     t, cellmode = _build_contacts(rng, case, ctx)
     table = F.residue_table(t.topology)
     nres = len(table)
@@ -307,7 +340,217 @@ def _run_contacts(case, ctx, rng):
         _contacts_one(ctx, t, table, cellmode, sch, mode, ignore_np, periodic, soft, beta, contacts, P, container, frames=frames)
 
 
-def _contacts_one(ctx, t, table, cellmode, scheme, mode, ignore_np, periodic, soft, beta, contacts, P, container, frames=None):
+# ----------------------------------------------------------------------------------------------- contacts, widened classes
+TRI_KINDS = ["monoclinic", "mono_alpha", "mono_gamma", "two_skew", "hex60", "hex120", "truncoct", "rhombdod", "rhombdod2", "triclinic"]
+CONTACT_DEFAULTS = dict(contacts="all", scheme="closest-heavy", ignore_nonprotein=True, periodic=True, soft_min=False, soft_min_beta=20)
+
+
+def _water_box(rng, ctx):
+    """homogeneous topology: waters (O, H1, H2), sometimes monatomic ions between them, one or two chains; no alpha carbon
+    anywhere, every residue of the same size (or of size one)"""
+    import mdtraj as md
+    from mdtraj.core import element as elem
+    top = md.Topology()
+    nch = int(rng.integers(1, 3))
+    nres = int(rng.integers(5, 15))
+    chains = [top.add_chain() for _ in range(nch)]
+    ions = bool(rng.random() < 0.5)
+    pos = []
+    for r in range(nres):
+        ch = chains[min(nch - 1, r * nch // nres)]
+        c = rng.normal(scale=0.45, size=3)
+        if ions and rng.random() < 0.25:
+            sym = ["Na", "Cl"][int(rng.integers(2))]
+            res = top.add_residue(sym.upper(), ch)
+            top.add_atom(sym.upper(), elem.get_by_symbol(sym), res)
+            pos.append(c)
+        else:
+            res = top.add_residue("HOH", ch)
+            top.add_atom("O", elem.oxygen, res)
+            top.add_atom("H1", elem.hydrogen, res)
+            top.add_atom("H2", elem.hydrogen, res)
+            pos.append(c)
+            for _ in range(2):
+                v = rng.normal(size=3)
+                pos.append(c + 0.0957 * v / np.linalg.norm(v))
+    ctx.observe("contacts.topology", "water-box" + ("+ions" if ions else ""))
+    return md.Trajectory(np.array(pos, np.float32)[None], top)
+
+
+def _wide_frame_count(rng, ctx, name, many=(101, 160)):
+    cls = ["single", "few", "many"][int(rng.choice(3, p=[0.2, 0.35, 0.45]))]
+    nf = {"single": 1, "few": int(rng.integers(2, 5)), "many": int(rng.integers(many[0], many[1] + 1))}[cls]
+    ctx.observe(name + ".frames", {"single": "1", "few": "2-4", "many": "more than 100"}[cls])
+    return nf
+
+
+def _wide_cells(rng, nf, need, cls):
+    """per-frame (lengths, angles) of class `cls`; every frame's smallest perpendicular width is >= need"""
+    kinds = ["cubic", "ortho"] + TRI_KINDS
+    if cls == "constant-triclinic":
+        L, A = _make_cell(rng, TRI_KINDS[int(rng.integers(len(TRI_KINDS)))], need)
+        return np.tile(L, (nf, 1)), np.tile(A, (nf, 1))
+    if cls == "one-length-varies":
+        # growing one edge of a parallelepiped leaves the other two widths unchanged and widens the third
+        L, A = _make_cell(rng, kinds[int(rng.integers(len(kinds)))], need)
+        Ls = np.tile(L, (nf, 1))
+        Ls[:, int(rng.integers(3))] *= 1.0 + rng.uniform(0, 0.3, nf)
+        return Ls, np.tile(A, (nf, 1))
+    if cls == "angles-vary":
+        kind = ["monoclinic", "mono_gamma", "two_skew", "triclinic"][int(rng.integers(4))]
+        LA = [_make_cell(rng, kind, need) for _ in range(nf)]
+        return np.array([x[0] for x in LA]), np.array([x[1] for x in LA])
+    if cls == "class-changes":
+        k1 = ["cubic", "ortho"][int(rng.integers(2))]
+        k2 = TRI_KINDS[int(rng.integers(len(TRI_KINDS)))]
+        if rng.random() < 0.5:
+            k1, k2 = k2, k1
+        sw = int(rng.integers(1, nf)) if nf > 1 else 1
+        one, two = _make_cell(rng, k1, need), _make_cell(rng, k2, need)
+        LA = [one if f < sw else two for f in range(nf)]
+        return np.array([x[0] for x in LA]), np.array([x[1] for x in LA])
+    raise ValueError(cls)
+
+
+def _pairs_container(rng, P):
+    """the same residue (or atom) pairs in another accepted container"""
+    kind = ["list-of-lists", "tuple-of-tuples", "int32", "strided-view", "fortran-order", "int64"][int(rng.integers(6))]
+    P = np.asarray(P, np.int64)
+    if kind == "list-of-lists":
+        return [[int(a), int(b)] for a, b in P], kind
+    if kind == "tuple-of-tuples":
+        return tuple((int(a), int(b)) for a, b in P), kind
+    if kind == "int32":
+        return P.astype(np.int32), kind
+    if kind == "strided-view":
+        W = np.full((2 * len(P), 5), -7, np.int64)
+        W[::2, 1] = P[:, 0]
+        W[::2, 3] = P[:, 1]
+        return W[::2, 1::2], kind
+    if kind == "fortran-order":
+        return np.asfortranarray(P), kind
+    return P.copy(), kind
+
+
+def _run_contacts_wide(case, ctx, rng):
+    import itertools
+    import mdtraj as md
+    water = bool(rng.random() < 0.25)
+    whole = bool(rng.random() < 0.06)
+    if whole:
+        # a complete structure: 36 .. 210 residues, thousands of residue pairs behind 'all', up to four chains with their waters
+        name = ["4OH9.pdb", "bpti.pdb", "1bpi.pdb", "1vii.pdb"][int(rng.integers(4))]
+        src = _src(name)[0]
+        t = md.Trajectory(src.xyz[:1].copy(), src.topology)
+        water = False
+        ctx.observe("contacts.topology", "whole-structure:%d-residues" % t.n_residues)
+    else:
+        t = _water_box(rng, ctx) if water else _contacts_structure(rng, case, ctx)
+    table = F.residue_table(t.topology)
+    nres = len(table)
+    # ---- frames
+    nf = _wide_frame_count(rng, ctx, "contacts.wide")
+    if whole:
+        nf = min(nf, 2)
+    x0 = t.xyz[0].astype(np.float64)
+    xyz = x0[None] + rng.normal(scale=0.03, size=(nf,) + x0.shape)
+    xyz[0] = x0
+    # ---- cell: constant, or one field / the angles / the class changing along the trajectory
+    cellcls = ["none", "constant-triclinic", "one-length-varies", "angles-vary", "class-changes"][int(rng.integers(5))]
+    if nf == 1 and cellcls != "none":
+        cellcls = "constant-triclinic"
+    t = md.Trajectory(xyz.astype(np.float32), t.topology)
+    K = 0
+    if cellcls != "none":
+        c = xyz.reshape(-1, 3).mean(0)
+        diam = 2.0 * float(np.linalg.norm(xyz.reshape(-1, 3) - c, axis=1).max()) + 1e-3
+        Ls, As = _wide_cells(rng, nf, 2.3 * diam, cellcls)
+        t.unitcell_lengths = Ls.astype(np.float32)
+        t.unitcell_angles = As.astype(np.float32)
+        K = int(rng.choice([0, 1, 3]))
+        if K:
+            Bf = t.unitcell_vectors.astype(np.float64)
+            x = t.xyz.astype(np.float64)
+            for r in t.top.residues:
+                idx = [a.index for a in r.atoms]
+                sh = rng.integers(-K, K + 1, (nf, 3)).astype(np.float64)
+                x[:, idx] += np.einsum("fi,fij->fj", sh, Bf)[:, None, :]
+            t.xyz = x.astype(np.float32)
+    ctx.observe("contacts.wide.cell", cellcls)
+    ctx.observe("contacts.residue-shift-cells", K)
+    # ---- options: each either drawn and passed, or left out (then the documented default is what the oracle uses)
+    val = dict(contacts="all" if rng.random() < 0.45 else "pairs",
+               scheme=(["closest", "closest-heavy"][int(rng.integers(2))] if water else F.SCHEMES[int(rng.integers(5))]),
+               ignore_nonprotein=bool(rng.random() < 0.5), periodic=bool(rng.random() < 0.6), soft_min=bool(rng.random() < 0.4),
+               soft_min_beta=float(rng.choice([20, 20, 5, 1, 50])))
+    omit = []
+    for name in CONTACT_DEFAULTS:
+        if rng.random() < 0.25:
+            omit.append(name)
+            val[name] = CONTACT_DEFAULTS[name]
+    if water and val["contacts"] == "all":
+        # nothing but non-protein residues: 'all' needs ignore_nonprotein=False to leave any pair
+        val["ignore_nonprotein"] = False
+        if "ignore_nonprotein" in omit:
+            omit.remove("ignore_nonprotein")
+    for name in omit:
+        ctx.observe("contacts.default-omitted", name)
+    if not omit:
+        ctx.observe("contacts.default-omitted", "(none)")
+    mode, scheme, ignore_np, periodic, soft = val["contacts"], val["scheme"], val["ignore_nonprotein"], val["periodic"], val["soft_min"]
+    beta = val["soft_min_beta"]
+    if "soft_min_beta" not in omit and rng.random() < 0.5:
+        beta = int(beta)
+    ctx.observe("contacts.soft_min_beta-type", type(beta).__name__)
+    ctx.observe("contacts.scheme", scheme)
+    ctx.observe("contacts.mode", mode + (":ignore_nonprotein" if mode == "all" and ignore_np else ""))
+    ctx.observe("contacts.periodic", periodic)
+    ctx.observe("contacts.soft_min", f"{soft}:beta={beta:g}" if soft else "False")
+    ctx.observe("contacts.n_chains", t.topology.n_chains)
+    for feat, cond in (("glycine", any(r["name"] == "GLY" for r in table)),
+                       ("residue-without-CA", any(not F.has_ca(r) for r in table)),
+                       ("water/ion/ligand", any(F.residue_class(r) == "nonprotein" for r in table)),
+                       ("unequal-residue-sizes", len({len(r["atoms"]) for r in table}) > 1),
+                       ("equal-residue-sizes", len({len(r["atoms"]) for r in table}) == 1)):
+        if cond:
+            ctx.observe("contacts.feature", feat)
+    P, container, contacts = None, "str", "all"
+    if mode == "pairs":
+        if rng.random() < 0.3 and nres >= 2:
+            # the documented itertools.product idiom, groups overlapping and not in ascending order: both orientations of
+            # a pair and residues paired with themselves occur
+            g1 = rng.permutation(nres)[: int(rng.integers(1, min(nres, 5) + 1))]
+            g2 = rng.permutation(nres)[: int(rng.integers(1, min(nres, 5) + 1))]
+            P = np.array(list(itertools.product([int(v) for v in g1], [int(v) for v in g2])))
+            ctx.observe("contacts.pairs-origin", "product-of-overlapping-groups")
+        else:
+            P = rng.integers(0, nres, (int(rng.integers(1, 16)), 2))
+            if rng.random() < 0.8:
+                P = P[P[:, 0] != P[:, 1]]
+            if len(P) and rng.random() < 0.3:
+                P = np.vstack([P, P[:1], P[:1, ::-1]])
+            if len(P) == 0:
+                P = np.array([[0, nres - 1]])
+            ctx.observe("contacts.pairs-origin", "random")
+        contacts, container = _pairs_container(rng, P)
+        ctx.observe("contacts.pairs-container", container)
+    frames = None
+    if nf > 12:
+        frames = sorted({0, nf - 1, 99, 100, min(101, nf - 1)} | {int(v) for v in rng.integers(0, nf, 4)})
+    # the same object asked under another scheme in between (nothing may be remembered from one call to the next)
+    seq = [scheme]
+    if "scheme" not in omit and rng.random() < 0.3:
+        other = [x for x in (["closest", "closest-heavy"] if water else F.SCHEMES) if x != scheme]
+        seq = [scheme, other[int(rng.integers(len(other)))], scheme]
+        ctx.observe("contacts.same-object-scheme-sequence", "A,B,A")
+    for sch in seq:
+        _contacts_one(ctx, t, table, cellcls, sch, mode, ignore_np, periodic, soft, beta, contacts, P, container, frames=frames,
+                      omit=tuple(omit), sq_extra=True)
+
+
+def _contacts_one(ctx, t, table, cellmode, scheme, mode, ignore_np, periodic, soft, beta, contacts, P, container, frames=None,
+                  omit=(), sq_extra=False):
+    """`omit`: keyword arguments NOT passed (the caller guarantees that their values are the documented defaults)"""
     import mdtraj as md
     from mdtraj.geometry import squareform
     n_ca = [sum(1 for i, n, s in r["atoms"] if n == "CA") for r in table]
@@ -316,6 +559,8 @@ def _contacts_one(ctx, t, table, cellmode, scheme, mode, ignore_np, periodic, so
         ctx.skip("contacts.column", "atom named 'ca' in other letter case: alpha-carbon status not documented")
         return
     kw = dict(contacts=contacts, scheme=scheme, ignore_nonprotein=ignore_np, periodic=periodic, soft_min=soft, soft_min_beta=beta)
+    for name in omit:
+        kw.pop(name)
     # ---- what the documentation lets us expect about the label set
     sets = [F.scheme_atoms(r, scheme) for r in table]
     if mode == "all":
@@ -464,17 +709,36 @@ def _contacts_one(ctx, t, table, cellmode, scheme, mode, ignore_np, periodic, so
             ctx.ok("contacts.column.soft_min", n_ok)
         if cells is not None:
             ctx.ok("contacts.column.periodic", n_ok)
+            if len(cells) > 1 and not np.array_equal(cells[0], cells[-1]):
+                ctx.ok("contacts.column.per-frame-cell", n_ok)
+        if omit:
+            ctx.ok("contacts.column.defaults-omitted", n_ok)
     # ---- squareform: pure bookkeeping, exact
+    sq_ok = _judge_squareform(ctx, dist, rp, nf)
+    if sq_extra and sq_ok and len(rp) >= 2:  # (a failure of the plain call is one mechanism: not repeated under the tagged keys)
+        # widened: a column subset handed over as strided views, labels as int32 / nested list, distances as float64
+        ctx.observe("squareform.input", "strided-subset")
+        _judge_squareform(ctx, dist[:, ::2], rp[::2], nf, tag=":strided-subset")
+        ctx.observe("squareform.input", "labels-as-list")
+        _judge_squareform(ctx, dist, [[int(a), int(b)] for a, b in rp], nf, tag=":labels-as-list")
+        ctx.observe("squareform.input", "labels-int32+distances-float64")
+        _judge_squareform(ctx, dist.astype(np.float64), rp.astype(np.int32), nf, tag=":int32-float64")
+
+
+def _judge_squareform(ctx, dist, rp_arg, nf, tag=""):
+    from mdtraj.geometry import squareform
+    rp = np.asarray(rp_arg)
+    got = [tuple(int(v) for v in p) for p in rp]
     try:
-        M = squareform(dist, rp)
+        M = squareform(dist, rp_arg)
     except Exception as e:  # noqa
-        ctx.violation("contacts.squareform", "squareform:raises", f"squareform raised {type(e).__name__}: {e}")
-        return
+        ctx.violation("contacts.squareform", "squareform:raises" + tag, f"squareform raised {type(e).__name__}: {e}")
+        return False
     n = int(rp.max()) + 1
     okshape = M.shape == (nf, n, n)
     if not okshape:
-        ctx.violation("contacts.squareform", "squareform:shape", f"shape {M.shape}, expected {(nf, n, n)}")
-        return
+        ctx.violation("contacts.squareform", "squareform:shape" + tag, f"shape {M.shape}, expected {(nf, n, n)}")
+        return False
     candv = {}
     for c, (i, j) in enumerate(got):
         candv.setdefault((i, j), []).append(c)
@@ -490,9 +754,10 @@ def _contacts_one(ctx, t, table, cellmode, scheme, mode, ignore_np, periodic, so
             elif not any(np.array_equal(col, dist[:, c], equal_nan=True) for c in cs):
                 bad = (i, j, "entry is not the column labelled with this residue pair")
     if bad:
-        ctx.violation("contacts.squareform", "squareform:entry-does-not-match-label", f"contact_maps[:, {bad[0]}, {bad[1]}]: {bad[2]}")
-    else:
-        ctx.ok("contacts.squareform", n * n)
+        ctx.violation("contacts.squareform", "squareform:entry-does-not-match-label" + tag, f"contact_maps[:, {bad[0]}, {bad[1]}]: {bad[2]}")
+        return False
+    ctx.ok("contacts.squareform", n * n)
+    return True
 
 
 # =============================================================================================== shape
@@ -515,7 +780,7 @@ def _shape_xyz(rng, nf, na):
     return x.astype(np.float32), kind
 
 
-def _select_expr(rng, top):
+def _select_expr(rng, top, wide=False):
     """(expression, python predicate) pairs written against docs/atom_selection.rst for very simple expressions."""
     na = top.n_atoms
     k = int(rng.integers(1, na + 1))
@@ -531,11 +796,22 @@ def _select_expr(rng, top):
         ("resname ALA", lambda at: at.residue.name == "ALA"),
         ("mass > 2", lambda at: at.element.mass > 2),
     ]
+    if wide:
+        r1 = int(rng.integers(0, top.n_residues))
+        opts = opts + [
+            (f"resid 0 to {r1}", lambda at: 0 <= at.residue.index <= r1),
+            (f"index {b}", lambda at: at.index == b),
+            ("name CA CB", lambda at: at.name in ("CA", "CB")),
+            ("element O or element N", lambda at: at.element.symbol in ("O", "N")),
+            (f"index >= {a} and index <= {b}", lambda at: a <= at.index <= b),
+        ] * 2
     return opts[int(rng.integers(len(opts)))]
 
 
 def _run_shape(case, ctx, rng):
     import mdtraj as md
+    if case.get("wide"):
+        return _run_shape_wide(case, ctx, rng)
     big = case["big"]
     na = int(rng.integers(1, 120 if big else 50))
     nf = int(rng.integers(1, 5))
@@ -543,6 +819,93 @@ def _run_shape(case, ctx, rng):
     xyz, kind = _shape_xyz(rng, nf, na)
     t = md.Trajectory(xyz, top)
     ctx.observe("shape.geometry", kind)
+    _judge_shape(ctx, rng, t, kind)
+
+
+def _shape_xyz_wide(rng, nf, na):
+    """exact special geometries: coordinates that are exactly zero, exactly axis-aligned, on a lattice, of cubic / fourfold
+    symmetry (degenerate principal moments), or symmetric about the origin (centre exactly zero)"""
+    kind = ["axis-rod", "axis-plane", "cube", "square-prism", "lattice", "origin-symmetric", "blob"][int(rng.integers(7))]
+    a = float(rng.choice([0.125, 0.5, 1.0, 2.0]))  # exactly representable
+    if kind == "axis-rod":
+        x = np.zeros((nf, na, 3))
+        x[..., int(rng.integers(3))] = rng.normal(scale=a, size=(nf, na))
+    elif kind == "axis-plane":
+        x = rng.normal(scale=a, size=(nf, na, 3))
+        x[..., int(rng.integers(3))] = 0.0
+    elif kind in ("cube", "square-prism"):
+        c = float(rng.choice([0.25, 2.0, 3.0])) * a if kind == "square-prism" else a
+        corners = np.array([[sx * a, sy * a, sz * c] for sx in (-1, 1) for sy in (-1, 1) for sz in (-1, 1)])
+        if rng.random() < 0.5:
+            corners = np.vstack([corners, np.zeros((1, 3))])
+        if kind == "square-prism":
+            corners = corners[:, rng.permutation(3)]
+        na = len(corners)
+        x = np.tile(corners[rng.permutation(na)], (nf, 1, 1))
+        x = x * (1.0 + np.arange(nf))[:, None, None]  # frames differ by an exact integer factor
+    elif kind == "lattice":
+        x = rng.integers(-8, 9, (nf, na, 3)) * a
+    elif kind == "origin-symmetric":
+        h = rng.normal(scale=a, size=(nf, max(1, na // 2), 3)).astype(np.float32).astype(np.float64)
+        x = np.concatenate([h, -h], axis=1)
+        na = x.shape[1]
+    else:
+        x = rng.normal(scale=a, size=(nf, na, 3))
+    if kind != "origin-symmetric" and rng.random() < 0.3:
+        x = x + rng.integers(-40, 41, 3).astype(np.float64)  # exact integer offset
+    return x.astype(np.float32), kind, na
+
+
+def _run_shape_wide(case, ctx, rng):
+    import mdtraj as md
+    # ---- (n_frames, n_atoms): beyond 100 frames, or coincidences between the axes' lengths (3 = the spatial dimension)
+    fc = ["many", "many", "coincidence", "few"][int(rng.integers(4))]
+    if fc == "many":
+        nf, na = int(rng.integers(101, 301)), int(rng.integers(1, 30))
+    elif fc == "coincidence":
+        nf, na = [(3, 3), (1, 1), (3, 1), (1, 3), (2, 2), (4, 4), (3, 4), (4, 3), (1, 2), (3, 2), (2, 3)][int(rng.integers(11))]
+    else:
+        nf, na = int(rng.integers(1, 5)), int(rng.integers(1, 50))
+    ctx.observe("shape.wide.frames", {"many": "more than 100", "coincidence": "axis-length coincidence", "few": "1-4"}[fc])
+    if fc == "coincidence":
+        xyz, kind = _shape_xyz(rng, nf, na)
+    else:
+        xyz, kind, na = _shape_xyz_wide(rng, nf, na)
+    top = common.random_topology(rng, na, rich=True, bonds=False)
+    # ---- the coordinates handed to the constructor in another accepted form (array_like); the oracle reads t.xyz
+    form = ["float32", "float64", "fortran-order", "strided-view", "nested-list"][int(rng.integers(5))]
+    if form == "float64":
+        arg = xyz.astype(np.float64)
+    elif form == "fortran-order":
+        arg = np.asfortranarray(xyz)
+    elif form == "strided-view":
+        W = np.full((nf, 2 * na, 4), 9.75, np.float32)
+        W[:, ::2, :3] = xyz
+        arg = W[:, ::2, :3]
+    elif form == "nested-list":
+        arg = xyz.tolist() if nf * na <= 600 else xyz
+        form = form if nf * na <= 600 else "float32"
+    else:
+        arg = xyz
+    ctx.observe("shape.wide.xyz-form", form)
+    t = md.Trajectory(arg, top)
+    if not (t.xyz.shape == xyz.shape and np.array_equal(t.xyz, xyz)):
+        ctx.skip("cog", "trajectory constructor did not keep the float32 coordinates handed over (outside C16)")
+        return
+    if rng.random() < 0.4:
+        L, A = common.random_cell(rng, None)
+        _set_cell(t, L, A)
+        ctx.observe("shape.wide.cell", "present")
+    else:
+        ctx.observe("shape.wide.cell", "none")
+    ctx.observe("shape.geometry", kind)
+    _judge_shape(ctx, rng, t, kind, wide=True)
+
+
+def _judge_shape(ctx, rng, t, kind, wide=False):
+    import mdtraj as md
+    top, xyz = t.topology, t.xyz
+    nf, na = xyz.shape[:2]
     x64 = xyz.astype(np.float64)
     M = float(np.abs(xyz).max())
     m_el = np.array([a.element.mass for a in top.atoms], dtype=np.float64)
@@ -573,7 +936,7 @@ def _run_shape(case, ctx, rng):
     # ---- centre of geometry / centre of mass
     cog = x64.mean(1)
     cmp("cog", "center_of_geometry:value", md.compute_center_of_geometry(t), cog, 8 * e32 * M + 1e-9, "compute_center_of_geometry")
-    expr, pred = _select_expr(rng, top)
+    expr, pred = _select_expr(rng, top, wide)
     for sel in (None, expr):
         idx = np.arange(na) if sel is None else np.array([a.index for a in top.atoms if pred(a)], int)
         label = "select" if sel else "all"
@@ -605,8 +968,23 @@ def _run_shape(case, ctx, rng):
         mv = np.ones(na)
         mv[int(rng.integers(na))] = 1000.0
     ctx.observe("shape.rg.masses", mk)
+    if wide:
+        # the documented ndarray in other dtypes / layouts; the oracle uses the values actually handed over
+        mform = ["float32", "int64", "strided-view", "float64"][int(rng.integers(4))]
+        if mform == "float32":
+            mv = mv.astype(np.float32)
+        elif mform == "int64":
+            mv = np.round(mv).astype(np.int64)
+        elif mform == "strided-view":
+            W = np.full(3 * na, -1.0)
+            W[1::3] = mv
+            mv = W[1::3]
+        ctx.observe("shape.rg.masses-form", mform)
+        marg, mv = mv, np.asarray(mv, np.float64)
+    else:
+        marg = mv
     if mv.sum() > 0:
-        got = np.asarray(md.compute_rg(t, masses=mv), np.float64)
+        got = np.asarray(md.compute_rg(t, masses=marg), np.float64)
         ref = np.array([F.rg(x64[f], mv) for f in range(nf)])
         alt = np.array([F.rg_mass_weights_about_centroid(x64[f], mv) for f in range(nf)])
         if got.shape != ref.shape:
@@ -693,23 +1071,75 @@ def _mol_topology(rng, nres, max_size=5):
     return top, sizes
 
 
+def _not_implemented_thermo(ctx, rng):
+    """thermal_expansion_alpha_P ("THIS FUNCTION IS NOT CURRENTLY IMPLEMENTED") and heat_capacity_Cp: documented refusals"""
+    import mdtraj as md
+    from mdtraj.geometry import thermodynamic_properties as tp
+    t = common.random_traj(rng, 5, 4, cell="random", per_frame_cell=True)
+    for name, call in (("thermal_expansion_alpha_P", lambda: tp.thermal_expansion_alpha_P(t, 300.0, rng.normal(size=5))),
+                       ("heat_capacity_Cp", lambda: tp.heat_capacity_Cp())):
+        try:
+            call()
+        except NotImplementedError:
+            ctx.skip("thermo.not-implemented", name + ": documented as not implemented, refused")
+            ctx.observe("thermo.not-implemented", name + ":refused")
+        else:
+            ctx.skip("thermo.not-implemented", name + ": returns a value although documented as not implemented (no formula to judge it by)")
+            ctx.observe("thermo.not-implemented", name + ":returns-a-value")
+
+
 def _run_thermo(case, ctx, rng):
     import mdtraj as md
     sub = ["density", "dipole", "dipole", "dielectric", "kappa"][int(rng.integers(5))]
     ctx.observe("thermo.kind", sub)
+    wide = bool(case.get("wide"))
+    if wide and rng.random() < 0.1:
+        return _not_implemented_thermo(ctx, rng)
     if sub in ("density", "kappa"):
         nf = int(rng.integers(1, 6)) if sub == "density" else int(rng.integers(3, 9))
+        if wide:
+            nf = _wide_frame_count(rng, ctx, "thermo.wide", many=(101, 300))
+            if sub == "kappa":
+                nf = max(nf, 2)
         na = int(rng.integers(1, 40))
         cellk = common.CELL_KINDS[int(rng.integers(len(common.CELL_KINDS)))]
         top = common.random_topology(rng, na, rich=True, bonds=False)
         t = common.random_traj(rng, nf, na, cell=cellk, top=top, per_frame_cell=bool(rng.random() < 0.6) or sub == "kappa")
+        if wide and nf > 1 and rng.random() < 0.5:
+            # the cell CLASS changes along the trajectory (equilibration in a rectangular box, production in a skewed one ...)
+            k2 = common.CELL_KINDS[int(rng.integers(len(common.CELL_KINDS)))]
+            sw = int(rng.integers(1, nf))
+            Ls, As = np.array(t.unitcell_lengths), np.array(t.unitcell_angles)
+            for f in range(sw, nf):
+                if f == sw or sub == "kappa" or rng.random() < 0.5:
+                    l2, a2 = common.random_cell(rng, k2)
+                Ls[f], As[f] = l2, a2
+            t.unitcell_lengths, t.unitcell_angles = Ls.astype(np.float32), As.astype(np.float32)
+            ctx.observe("thermo.wide.cell-class-changes", True)
         ctx.observe("thermo.cell", cellk)
         B = t.unitcell_vectors.astype(np.float64)
         V = np.array([F.cell_volume(b) for b in B])
         if sub == "density":
             m_el = np.array([a.element.mass for a in top.atoms])
-            for masses in (None, rng.uniform(0.5, 40, na)):
-                mt = m_el.sum() if masses is None else masses.sum()
+            marg = rng.uniform(0.5, 40, na)
+            rel_extra = 0.0
+            if wide:
+                # the documented ndarray in other dtypes / layouts (python's sum() over a float32 array accumulates in float32)
+                mform = ["float32", "int64", "strided-view", "with-zeros", "float64"][int(rng.integers(5))]
+                if mform == "float32":
+                    marg = marg.astype(np.float32)
+                    rel_extra = na * F.EPS32
+                elif mform == "int64":
+                    marg = np.round(marg).astype(np.int64)
+                elif mform == "strided-view":
+                    W = np.full(2 * na, -3.0)
+                    W[::2] = marg
+                    marg = W[::2]
+                elif mform == "with-zeros":
+                    marg = marg * (rng.random(na) < 0.5)
+                ctx.observe("thermo.density.masses-form", mform)
+            for masses in (None, marg):
+                mt = m_el.sum() if masses is None else np.asarray(masses, np.float64).sum()
                 if mt <= 0:
                     ctx.skip("density", "zero total mass")
                     continue
@@ -719,7 +1149,7 @@ def _run_thermo(case, ctx, rng):
                 if got.shape != ref.shape:
                     ctx.violation("density", f"density:{lab}:shape", f"shape {got.shape}")
                     continue
-                bad = ~(np.abs(got - ref) <= 2e-6 * ref + 1e-12)
+                bad = ~(np.abs(got - ref) <= (2e-6 + (rel_extra if masses is not None else 0.0)) * ref + 1e-12)
                 if bad.any():
                     j = int(np.argmax(bad))
                     ctx.violation("density", f"density:{lab}:value", f"density {got[j]:.9g} kg/m^3, total mass / volume gives {ref[j]:.9g}",
@@ -728,6 +1158,9 @@ def _run_thermo(case, ctx, rng):
                     ctx.ok("density", nf)
         else:
             T = float(rng.uniform(200, 400))
+            if wide and rng.random() < 0.5:
+                T = int(T)  # a whole number of kelvin typed as an integer
+                ctx.observe("thermo.temperature-type", "int")
             got = md.isothermal_compressability_kappa_T(t, T)
             try:
                 got = float(got)
@@ -752,6 +1185,10 @@ def _run_thermo(case, ctx, rng):
     top, sizes = _mol_topology(rng, nres)
     na = top.n_atoms
     nf = int(rng.integers(1, 4)) if sub == "dipole" else int(rng.integers(2, 8))
+    if wide:
+        nf = _wide_frame_count(rng, ctx, "thermo.wide", many=(101, 200))
+        if sub == "dielectric":
+            nf = max(nf, 2)
     first = np.repeat(np.cumsum([0] + sizes[:-1]), sizes)
     # molecules: compact clusters scattered inside a region smaller than half the cell width
     centres = rng.normal(scale=0.5, size=(nf, nres, 3))
@@ -765,6 +1202,12 @@ def _run_thermo(case, ctx, rng):
     sc = 1.0 + (rng.uniform(0, 0.3, nf) if rng.random() < 0.6 else np.zeros(nf))
     t.unitcell_lengths = (np.asarray(L)[None, :] * sc[:, None]).astype(np.float32)
     t.unitcell_angles = np.tile(np.asarray(A, np.float32), (nf, 1))
+    if wide and nf > 1 and rng.random() < 0.6:
+        # per-frame cells whose angles, or whose class, change along the trajectory (each wide enough for the molecules)
+        ccls = ["angles-vary", "class-changes", "one-length-varies"][int(rng.integers(3))]
+        Ls, As = _wide_cells(rng, nf, 2.3 * diam, ccls)
+        t.unitcell_lengths, t.unitcell_angles = Ls.astype(np.float32), As.astype(np.float32)
+        ctx.observe("thermo.wide.cell", ccls)
     Bf = t.unitcell_vectors.astype(np.float64)
     for f in range(nf):
         x[f] = x[f] + rng.uniform(0, 1, 3) @ Bf[f]
@@ -784,14 +1227,32 @@ def _run_thermo(case, ctx, rng):
     elif qk == "integer":
         q = rng.integers(-2, 3, na).astype(np.float64)
     ctx.observe("thermo.dipole.charges", qk)
+    qarg = q
+    if wide:
+        # the documented ndarray in other dtypes / layouts; the oracle uses the values actually handed over
+        qform = ["float32", "int64", "strided-view", "float64"][int(rng.integers(4))]
+        if qform == "float32":
+            qarg = q.astype(np.float32)
+        elif qform == "int64":
+            qarg = np.round(2 * q).astype(np.int64)
+        elif qform == "strided-view":
+            W = np.full((na, 3), 0.5)
+            W[:, 1] = q
+            qarg = W[:, 1]
+        q = np.asarray(qarg, np.float64)
+        ctx.observe("thermo.dipole.charges-form", qform)
     x64 = t.xyz.astype(np.float64)
     Bt = t.unitcell_vectors.astype(np.float64)
     ref = np.zeros((nf, 3))
+    dmax = 0.0
     for f in range(nf):
-        ref[f] = F.dipole(x64[f], q, first, Bt[f])[0]
+        ref[f], loc, mol = F.dipole(x64[f], q, first, Bt[f])
+        dmax = max(dmax, float(np.abs(loc + mol).max()))
     tau = _tau_d(t.xyz, Bt)
     tolM = np.abs(q).sum() * 2 * tau + 1e-9
-    got = np.asarray(md.geometry.dipole_moments(t, q), np.float64)
+    if qarg.dtype == np.float32:
+        tolM += na * F.EPS32 * np.abs(q).sum() * dmax  # float32 charges: the product is accumulated in float32
+    got = np.asarray(md.geometry.dipole_moments(t, qarg), np.float64)
     if got.shape != (nf, 3):
         ctx.violation("dipole", "dipole:shape", f"shape {got.shape}")
         return
@@ -809,13 +1270,16 @@ def _run_thermo(case, ctx, rng):
         return
     # dielectric: insensitive to the overall sign
     T = float(rng.uniform(200, 400))
+    if wide and rng.random() < 0.5:
+        T = int(T)
+        ctx.observe("thermo.temperature-type", "int")
     V = np.array([F.cell_volume(b) for b in Bt])
     refd = F.static_dielectric(ref, V, T)
     var = (ref * ref).sum(1).mean() - (ref.mean(0) ** 2).sum()
     if var <= 0 or np.sqrt(var) < 100 * tolM:
         ctx.skip("dielectric", "dipole fluctuation too small against float32 rounding")
         return
-    gotd = float(md.geometry.static_dielectric(t, q, T))
+    gotd = float(md.geometry.static_dielectric(t, qarg, T))
     tol = abs(refd - 1) * (4 * tolM / np.sqrt(var) + 1e-5)
     ctx.check(abs(gotd - refd) <= tol, "dielectric", "static_dielectric:value",
               f"static_dielectric = {gotd:.9g}; 1 + (<M.M>-<M>.<M>)/(3 eps0 <V> kB T) = {refd:.9g}", ratio=(gotd - 1) / (refd - 1))
@@ -825,14 +1289,33 @@ def _run_thermo(case, ctx, rng):
 def _run_rdf(case, ctx, rng):
     import mdtraj as md
     big = case["big"]
+    wide = bool(case.get("wide"))
     na = int(rng.integers(3, 60 if big else 30))
     nf = int(rng.integers(1, 5))
     cellk = common.CELL_KINDS[int(rng.integers(len(common.CELL_KINDS)))]
     perframe = bool(rng.random() < 0.4)
-    sub = "rdf_t" if rng.random() < 0.2 else "rdf"
+    sub = "rdf_t" if rng.random() < (0.45 if wide else 0.2) else "rdf"
     if sub == "rdf_t":
         perframe = False
+    if wide:
+        nf = _wide_frame_count(rng, ctx, "rdf.wide", many=(101, 140))
+        if nf > 100:
+            na = int(rng.integers(3, 13))
     t = common.random_traj(rng, nf, na, cell=cellk, per_frame_cell=perframe)
+    if wide and sub == "rdf" and nf > 1 and rng.random() < 0.4:
+        # the cell class changes along the trajectory
+        k2 = common.CELL_KINDS[int(rng.integers(len(common.CELL_KINDS)))]
+        sw = int(rng.integers(1, nf))
+        Ls, As = np.array(t.unitcell_lengths), np.array(t.unitcell_angles)
+        l2, a2 = common.random_cell(rng, k2)
+        for f in range(sw, nf):
+            if perframe:
+                l2, a2 = common.random_cell(rng, k2)
+            Ls[f], As[f] = l2, a2
+        t.unitcell_lengths, t.unitcell_angles = Ls.astype(np.float32), As.astype(np.float32)
+        perframe = True
+        cellk = cellk + "->" + k2
+        ctx.observe("rdf.wide.cell-class-changes", True)
     B = t.unitcell_vectors.astype(np.float64)
     x = np.stack([rng.uniform(-0.5, 1.5, (na, 3)) @ B[f] for f in range(nf)])
     t.xyz = x.astype(np.float32)
@@ -880,8 +1363,32 @@ def _run_rdf(case, ctx, rng):
     if binmode in ("n_bins", "both"):
         nb_arg = int(rng.integers(1, 120))
         kw["n_bins"] = nb_arg
+    pairs_arg = pairs
+    if wide:
+        pairs_arg, pform = _pairs_container(rng, pairs)
+        ctx.observe("rdf.pairs-container", pform)
+        if "r_range" in kw:
+            rform = ["tuple", "list", "ndarray", "float32-ndarray", "ints"][int(rng.integers(5))]
+            if rform == "list":
+                kw["r_range"] = [r0, r1]
+            elif rform == "ndarray":
+                kw["r_range"] = np.array([r0, r1])
+            elif rform == "float32-ndarray" and float(np.float32(r0)) == r0 and float(np.float32(r1)) == r1:
+                kw["r_range"] = np.array([r0, r1], np.float32)
+            elif rform == "ints" and float(int(r0)) == r0 and float(int(r1)) == r1:
+                kw["r_range"] = (int(r0), int(r1))
+            else:
+                rform = "tuple"
+            ctx.observe("rdf.r_range-form", rform)
+        if nb_arg is not None and rng.random() < 0.5:
+            kw["n_bins"] = [np.int64, np.int32][int(rng.integers(2))](nb_arg)
+            ctx.observe("rdf.n_bins-type", type(kw["n_bins"]).__name__)
+        for name, default in (("periodic", True), ("opt", True)):
+            if kw[name] == default and rng.random() < 0.5:
+                kw.pop(name)
+                ctx.observe("rdf.default-omitted", name)
     ctx.observe("rdf.kind", sub)
-    ctx.observe("rdf.cell", cellk + (":per-frame" if perframe else ""))
+    ctx.observe("rdf.cell", (cellk if not wide else cellk.split("->")[0]) + (":per-frame" if perframe else ""))
     ctx.observe("rdf.bins", binmode)
     ctx.observe("rdf.periodic/opt", f"{periodic}/{opt}")
     V = np.array([F.cell_volume(b) for b in B])
@@ -922,7 +1429,7 @@ def _run_rdf(case, ctx, rng):
 
     if sub == "rdf":
         try:
-            r, g = md.compute_rdf(t, pairs, **kw)
+            r, g = md.compute_rdf(t, pairs_arg, **kw)
         except Exception as e:  # noqa
             if not _rdf_lost_only_bin(e):
                 ctx.violation("rdf.g", "rdf:raises", f"compute_rdf raised {type(e).__name__}: {e}", kw=str(kw))
@@ -965,8 +1472,35 @@ def _run_rdf(case, ctx, rng):
     if rng.random() < 0.5:
         times[0] = (times[0, 0], times[0, 0])  # g(r, 0)
     ncp = int(rng.choice([100000, 7, len(pairs)]))
+    kwt = dict(self_correlation=False, n_concurrent_pairs=ncp)
+    times_arg = times
+    pairs_eff = pairs
+    if wide:
+        # self_correlation (default True): the pairs (i, i) of every atom named in `pairs` are added, see ASSUMPTIONS
+        sc = ["default", "True", "False"][int(rng.integers(3))]
+        if sc == "default":
+            kwt.pop("self_correlation")
+        elif sc == "True":
+            kwt["self_correlation"] = True
+        if sc != "False":
+            u = np.unique(pairs)
+            pairs_eff = np.vstack([np.stack([u, u], axis=1), pairs])
+        ctx.observe("rdf_t.self_correlation", sc)
+        if rng.random() < 0.4:
+            kwt.pop("n_concurrent_pairs")
+            ncp = 100000
+            ctx.observe("rdf.default-omitted", "n_concurrent_pairs")
+        elif rng.random() < 0.3:
+            ncp = kwt["n_concurrent_pairs"] = int(rng.integers(1, len(pairs_eff) + 1))
+        if rng.random() < 0.5:
+            times_arg = [(int(a), int(b)) for a, b in times]
+            ctx.observe("rdf_t.times-form", "list-of-tuples")
+        else:
+            ctx.observe("rdf_t.times-form", "ndarray")
+        if nf > 100:
+            ctx.observe("rdf_t.frame-lag", "up to more than 100 frames")
     try:
-        r, g = md.compute_rdf_t(t, pairs, times, self_correlation=False, n_concurrent_pairs=ncp, **kw)
+        r, g = md.compute_rdf_t(t, pairs_arg, times_arg, **kwt, **kw)
     except Exception as e:  # noqa
         if not _rdf_lost_only_bin(e):
             ctx.violation("rdf_t", "rdf_t:raises", f"compute_rdf_t raised {type(e).__name__}: {e}", kw=str(kw))
@@ -978,9 +1512,9 @@ def _run_rdf(case, ctx, rng):
     if g.shape != (ntp, len(edges) - 1):
         ctx.violation("rdf_t", "rdf_t:g-shape", f"g_r_t shape {g.shape}")
         return
-    norm = F.rdf_norm(edges, len(pairs), (1.0 / V).mean())
+    norm = F.rdf_norm(edges, len(pairs_eff), (1.0 / V).mean())
     for k, (a, b) in enumerate(times):
-        raw = x64[b, pairs[:, 1]] - x64[a, pairs[:, 0]]
+        raw = x64[b, pairs_eff[:, 1]] - x64[a, pairs_eff[:, 0]]
         d = geom.min_image(raw, B[a])[1] if periodic else np.linalg.norm(raw, axis=1)
         if periodic and not orth and a != b:
             # displacement between different frames is not confined to half the cell: only distances < w/2 are in the C05 domain
@@ -992,8 +1526,9 @@ def _run_rdf(case, ctx, rng):
         bad = (g[k] < glo * (1 - 1e-6) - 1e-300) | (g[k] > ghi * (1 + 1e-6) + 1e-300)
         if bad.any():
             j = int(np.argmax(bad))
-            ctx.violation("rdf_t", "rdf_t:value" + (":chunked" if ncp < len(pairs) else ""), f"g(r,t) for frames ({a},{b}) bin {j} = {g[k, j]:.8g}; "
-                          f"count/(N_pairs <1/V> shell) in [{glo[j]:.8g},{ghi[j]:.8g}]", n_concurrent_pairs=ncp, n_pairs=len(pairs))
+            ctx.violation("rdf_t", "rdf_t:value" + (":self_correlation" if len(pairs_eff) != len(pairs) else "") + (":chunked" if ncp < len(pairs_eff) else ""),
+                          f"g(r,t) for frames ({a},{b}) bin {j} = {g[k, j]:.8g}; "
+                          f"count/(N_pairs <1/V> shell) in [{glo[j]:.8g},{ghi[j]:.8g}]", n_concurrent_pairs=ncp, n_pairs=len(pairs_eff))
         else:
             ctx.ok("rdf_t", int((hi > 0).sum()) or 1)
 
@@ -1002,21 +1537,57 @@ def _run_rdf(case, ctx, rng):
 def _run_drid(case, ctx, rng):
     import mdtraj as md
     big = case["big"]
+    wide = bool(case.get("wide"))
     na = int(rng.integers(3, 80 if big else 40))
     nf = int(rng.integers(1, 4))
+    if wide:
+        nf = _wide_frame_count(rng, ctx, "drid.wide", many=(101, 300))
+        if nf > 100:
+            na = int(rng.integers(3, 25))
+        elif rng.random() < 0.15:
+            na = int(rng.integers(200, 420))  # more atoms than any team size / vector width / small scratch buffer
+            ctx.observe("drid.wide.atoms", "200-420")
     top = common.random_topology(rng, na, rich=bool(rng.random() < 0.5), bonds=True)
     scale = float(rng.choice([0.3, 1.0, 3.0]))
     xyz = (rng.normal(scale=scale, size=(nf, na, 3)) + rng.normal(scale=float(rng.choice([0, 0, 20])), size=3)).astype(np.float32)
     t = md.Trajectory(xyz, top)
+    if wide and rng.random() < 0.4:
+        L, A = common.random_cell(rng, None)
+        _set_cell(t, L, A)
+        ctx.observe("drid.wide.cell", "present (to be ignored)")
     mode = ["all", "sorted-subset", "shuffled-subset"][int(rng.integers(3))]
+    if wide:
+        mode = ["all-explicit", "all-omitted", "sorted-subset", "shuffled-subset", "descending-subset"][int(rng.integers(5))]
     if mode == "all":
         ai, arg = np.arange(na), None
+    elif mode == "all-omitted":
+        ai, arg, mode = np.arange(na), "omitted", "all"
+    elif mode == "all-explicit":
+        ai = arg = np.arange(na)
+        mode = "all"
     else:
         k = int(rng.integers(2, na + 1))
         ai = rng.permutation(na)[:k]
         if mode == "sorted-subset":
             ai = np.sort(ai)
+        elif mode == "descending-subset":
+            ai = np.sort(ai)[::-1].copy()
+            mode = "shuffled-subset"
+            ctx.observe("drid.atom_indices.order", "descending")
         arg = ai
+    if wide and isinstance(arg, np.ndarray):
+        form = ["int64", "int32", "list", "strided-view", "reversed-view"][int(rng.integers(5))]
+        if form == "int32":
+            arg = ai.astype(np.int32)
+        elif form == "list":
+            arg = [int(v) for v in ai]
+        elif form == "strided-view":
+            W = np.full(2 * len(ai), -1, np.int64)
+            W[::2] = ai
+            arg = W[::2]
+        elif form == "reversed-view":
+            arg = ai[::-1].copy()[::-1]  # negative stride
+        ctx.observe("drid.atom_indices-form", form)
     ctx.observe("drid.atom_indices", mode)
     ctx.observe("drid.n_bonds", "0" if top.n_bonds == 0 else ("<n" if top.n_bonds < na else ">=n"))
     bonded = {}
@@ -1029,7 +1600,7 @@ def _run_drid(case, ctx, rng):
     if any(len(selset - {i} - bonded.get(i, set())) == 0 for i in selset):
         ctx.skip("drid.mean", "an atom has no non-bonded partner in the selection (moments undefined)")
         return
-    got = np.asarray(md.compute_drid(t, atom_indices=arg), np.float64)
+    got = np.asarray(md.compute_drid(t) if isinstance(arg, str) else md.compute_drid(t, atom_indices=arg), np.float64)
     if got.shape != (nf, 3 * len(ai)):
         ctx.violation("drid.shape", "drid:shape", f"shape {got.shape}, expected {(nf, 3 * len(ai))}")
         return
@@ -1085,9 +1656,14 @@ def _run_order(case, ctx, rng):
         return _run_karplus(case, ctx, rng)
     import mdtraj as md
     from mdtraj.core import element as elem
+    wide = bool(case.get("wide"))
     nf = int(rng.integers(1, 4))
+    if wide:
+        nf = _wide_frame_count(rng, ctx, "order.wide", many=(101, 200))
     ngroups = int(rng.integers(1, 10))
     layout = ["chains", "residues", "lists"][int(rng.integers(3))]
+    if wide and rng.random() < 0.5:
+        layout = "lists"
     ordered = bool(rng.random() < 0.5)
     top = md.Topology()
     syms = ["H", "C", "N", "O", "S", "Cl"]
@@ -1114,24 +1690,51 @@ def _run_order(case, ctx, rng):
         k += n
     xyz = np.concatenate(xs, axis=1).astype(np.float32)
     t = md.Trajectory(xyz, top)
+    omit_indices = False
     if layout == "lists":
         # user lists: sub-ranges, not aligned with residues
         groups = [g[: max(2, len(g) - int(rng.integers(0, 3)))] for g in groups]
         arg = [list(map(int, g)) for g in groups]
+        if wide:
+            # the same kind of request, the groups written down differently (a group is a set of atoms)
+            variant = ["non-ascending", "non-ascending", "interleaved", "overlapping", "tuples", "two-atom-groups"][int(rng.integers(6))]
+            if variant == "interleaved" and len(groups) >= 2:
+                new = []
+                for k in range(0, len(groups) - 1, 2):
+                    u = sorted(groups[k] + groups[k + 1])
+                    new += [u[0::2], u[1::2]]
+                groups = [g for g in new if len(g) >= 2] + (groups[len(groups) - 1:] if len(groups) % 2 else [])
+            elif variant == "overlapping" and len(groups) >= 2:
+                groups = [sorted(set(groups[k] + groups[(k + 1) % len(groups)][: int(rng.integers(1, 4))])) for k in range(len(groups))]
+            elif variant == "two-atom-groups":
+                groups = [[g[0], g[-1]] for g in groups]
+            elif variant == "non-ascending":
+                groups = [[int(v) for v in rng.permutation(g)] for g in groups]
+                if all(g == sorted(g) for g in groups):
+                    groups[0] = groups[0][::-1]
+            elif variant in ("interleaved", "overlapping"):
+                variant = "ascending"
+            arg = [list(map(int, g)) for g in groups]
+            if variant == "tuples":
+                arg = tuple(tuple(g) for g in arg)
+            layout = "lists-" + variant
     else:
         arg = layout
+        if wide and layout == "chains" and rng.random() < 0.6:
+            omit_indices = True  # indices='chains' is the documented default
+            layout = "chains-by-default"
     ctx.observe("order.indices", layout)
     ctx.observe("order.ordered", ordered)
     x64 = xyz.astype(np.float64)
     m_el = np.array([a.element.mass for a in top.atoms], np.float64)
-    dirs = np.asarray(md.compute_directors(t, indices=arg))
+    dirs = np.asarray(md.compute_directors(t) if omit_indices else md.compute_directors(t, indices=arg))
     if dirs.shape != (nf, len(groups), 3):
         ctx.violation("directors", "directors:shape", f"shape {dirs.shape}, expected {(nf, len(groups), 3)}")
         return
     if np.iscomplexobj(dirs):
         ctx.violation("directors", "directors:complex", "complex directors returned")
         return
-    S2 = np.asarray(md.compute_nematic_order(t, indices=arg))
+    S2 = np.asarray(md.compute_nematic_order(t) if omit_indices else md.compute_nematic_order(t, indices=arg))
     ctx.observe("order.nematic.dtype", str(S2.dtype))
     if S2.shape != (nf,):
         ctx.violation("nematic", "nematic:shape", f"shape {S2.shape}")
@@ -1197,8 +1800,17 @@ def _run_karplus(case, ctx, rng):
     if not sel:
         sel = [r.index for r in chains[0].residues][:6]
     atoms = np.concatenate([res_atoms[r] for r in sel])
+    wide = bool(case.get("wide"))
+    if wide and rng.random() < 0.5:
+        # backbone atoms missing here and there: the phi list must lose exactly the angles that need them
+        bb = [int(i) for i in atoms if t0.topology.atom(int(i)).name in ("N", "CA", "C")]
+        drop = set(int(v) for v in rng.choice(bb, size=min(len(bb), int(rng.integers(1, 4))), replace=False))
+        atoms = np.array([i for i in atoms if int(i) not in drop])
+        ctx.observe("karplus.wide.backbone-atoms-deleted", len(drop))
     sub = t0[fr].atom_slice(atoms)
     nf = int(rng.integers(1, 4))
+    if wide:
+        nf = _wide_frame_count(rng, ctx, "karplus.wide", many=(101, 200))
     x = sub.xyz[0].astype(np.float64) + rng.normal(scale=float(rng.choice([0.0, 0.01, 0.05])), size=(nf, sub.n_atoms, 3))
     x = x + rng.normal(size=3) * float(rng.choice([0, 0, 5.0]))
     t = md.Trajectory(x.astype(np.float32), sub.topology)
@@ -1212,6 +1824,20 @@ def _run_karplus(case, ctx, rng):
     models = list(F.KARPLUS[fam])
     model = models[int(rng.integers(len(models)))] if rng.random() < 0.8 else None
     fn = getattr(md, "compute_J3_" + fam)
+    if wide and rng.random() < 0.15:
+        # "Must be one of ...": a model name outside the documented table is refused, never silently given some coefficients
+        bogus = ["Bax1999", "bax2007", "Karplus1963", "Ruterjans1999" if fam != "HN_HA" else "Bax97", ""][int(rng.integers(5))]
+        try:
+            fn(t, model=bogus)
+        except KeyError:
+            ctx.ok("karplus.unknown-model-refused")
+        except Exception as e:  # noqa
+            ctx.skip("karplus.unknown-model-refused", f"refused with {type(e).__name__} instead of the KeyError in the code (not documented)")
+        else:
+            ctx.violation("karplus.unknown-model-refused", f"karplus:{fam}:unknown-model-accepted", f"model={bogus!r} is not in the documented table "
+                          "but a coupling was returned")
+        if bogus == "Bax1999" and fam == "HN_HA":
+            ctx.observe("karplus.docstring-names-Bax1999-table-has-Bax1997", "Bax1999 refused")
     idx, J = fn(t) if model is None else fn(t, model=model)
     A_, B_, C_, phi0 = F.KARPLUS[fam][model or "Bax2007"]
     ctx.observe("karplus.function", fam + ":" + (model or "default"))
@@ -1236,6 +1862,30 @@ def _run_karplus(case, ctx, rng):
         ctx.violation("karplus.labels", "karplus:indices-are-not-phi-atoms", f"indices row names {badlab[0]} residues {badlab[1]} is not C(i-1),N,CA,C(i)")
         return
     ctx.ok("karplus.labels", len(idx))
+    if wide:
+        # completeness: every residue i whose N, CA, C and whose predecessor's (same chain) C exist once has its phi listed once
+        want = []
+        for ch in t.topology.chains:
+            prev = None
+            for r in ch.residues:
+                nm = {}
+                for a in r.atoms:
+                    nm.setdefault(a.name, []).append(a.index)
+                if prev is not None and all(len(nm.get(k, [])) == 1 for k in ("N", "CA", "C")) and len(prev.get("C", [])) == 1:
+                    want.append((prev["C"][0], nm["N"][0], nm["CA"][0], nm["C"][0]))
+                elif prev is not None and (any(len(nm.get(k, [])) > 1 for k in ("N", "CA", "C")) or len(prev.get("C", [])) > 1):
+                    want = None
+                    break
+                prev = nm
+            if want is None:
+                break
+        if want is None:
+            ctx.skip("karplus.complete", "a residue holds two atoms of the same backbone name")
+        else:
+            gotrows = [tuple(int(v) for v in row) for row in idx]
+            ctx.check(sorted(gotrows) == sorted(want), "karplus.complete", "karplus:phi-list-incomplete-or-duplicated",
+                      f"{len(gotrows)} phi rows returned, {len(want)} residues have C(i-1), N, CA, C", missing=[w for w in want if w not in gotrows][:4],
+                      extra=[g for g in gotrows if g not in want][:4])
     x64 = t.xyz.astype(np.float64)
     M = float(np.abs(t.xyz).max())
     nok = 0
